@@ -52,13 +52,22 @@ def items(tier, seed):
             ns = [1] if cls == "Scalar" else ([2, 3] if cls.startswith("Fixed") else list(range(0, nmax + 1)))
             for n in ns:
                 out.append({"lim": list(lim), "qt": "length", "du": "m", "u": "m", "cls": cls, "n": n, "dflt": "given", "fp": True})
+    hist = []
+    for lim in LIMS[1:]:
+        for u in ("m", "cm"):
+            for cls in ("Scalar", "Array.list", "FractionScalar"):
+                hist.append({"k": "redefine", "lim": list(lim), "qt": "length", "du": "m", "u": u, "cls": cls, "n": 2, "dflt": "given", "fp": False})
+        hist.append({"k": "from_category", "lim": list(lim), "qt": "length", "du": "m", "u": "m", "cls": "Scalar", "n": 1, "dflt": "given", "fp": False})
+        for cls in ("Array.list", "Array.numpy", "FixedArray.list"):
+            hist.append({"k": "copy_category", "lim": list(lim), "qt": "length", "du": "m", "u": "cm", "cls": cls, "n": 2, "dflt": "given", "fp": False})
     if tier == "quick":
         fpi = [c for c in out if c["fp"]]
         rest = [c for c in out if not c["fp"]]
         keep = [c for c in rest if c["n"] <= 2 or c["qt"] in ("length",)]
         out = fpi + keep
+    out += hist
     for c in out:
-        if c["cls"] == "Scalar" and c["lim"][0] == "min" and not c["fp"]:
+        if c["cls"] == "Scalar" and c["lim"][0] == "min" and not c["fp"] and "k" not in c:
             c["canary"] = True
             break
     rng.shuffle(out)
@@ -70,6 +79,8 @@ def inputs(cfg):
     d = {"x%d" % i: kind for i in range(max(cfg["n"], 1))}
     if not cfg["fp"]:
         d.update({"lo": "real", "hi": "real", "d": "real"})
+    if "k" in cfg:
+        d.update({"lo2": "real", "hi2": "real"})
     return d
 
 
@@ -105,9 +116,74 @@ def _verdict(fn):
         return {"ok": False, "op": e.operator, "limit": e.limit_value, "value": e.value}
 
 
+def _mk_obj(cls, xs, u, cat=None):
+    from barril.units import Array, FixedArray, FractionScalar, Scalar
+
+    if cls == "Scalar":
+        return Scalar(xs[0], u, cat) if cat else Scalar(xs[0], u)
+    if cls == "FractionScalar":
+        return FractionScalar(xs[0], u, cat) if cat else FractionScalar(xs[0], u)
+    if cls == "Array.list":
+        return Array(list(xs), u, cat) if cat else Array(list(xs), u)
+    if cls == "Array.numpy":
+        import numpy
+
+        c = SymArray(xs) if core.is_sym(xs[0]) else numpy.array(xs, dtype=float)
+        return Array(c, u, cat) if cat else Array(c, u)
+    return FixedArray(len(xs), list(xs), u, cat) if cat else FixedArray(len(xs), list(xs), u)
+
+
+def run_history(cfg, V):
+    """validation after a HISTORY: a redefined category, a category copied from another one, a copy moved to another category"""
+    from barril.units import Scalar
+
+    db = fresh_posc_db()
+    kw = _limits(cfg, V)
+    xs = [V["x%d" % i] for i in range(cfg["n"])]
+    k = cfg["k"]
+    with pushed(db):
+        if k == "redefine":
+            # objects created through the unit alone BEFORE the category is redefined with limits
+            for un in ("m", "cm", "km"):
+                _mk_obj("Scalar", [1.0], un), _mk_obj("Array.list", [1.0, 2.0], un), Scalar(1.0, un, "length")
+            try:
+                db.AddCategory("length", "length", override=True, **kw)
+            except (ValueError, AssertionError, RuntimeError):
+                return {"skip": True}
+            o1, o2 = _mk_obj(cfg["cls"], xs, cfg["u"]), _mk_obj(cfg["cls"], xs, cfg["u"], "length")
+            return {"valid_unit_only": o1.IsValid(), "valid_explicit": o2.IsValid(), "cat": o1.GetCategory()}
+        if k == "from_category":
+            try:
+                db.AddCategory("c12src", "length", default_unit="m", **kw)
+            except (ValueError, AssertionError, RuntimeError):
+                return {"skip": True}
+            kind, emin, emax = cfg["lim"]
+            kw2 = {"max_value": V["hi2"]} if kind in ("max", "both") else {"min_value": V["lo2"]}
+            try:
+                info = db.AddCategory("c12copy", from_category="c12src", **kw2)
+            except (ValueError, AssertionError, RuntimeError) as e:
+                return {"copied": False}
+            s = Scalar("c12copy")
+            return {"copied": True, "default": info.default_value, "min": info.min_value, "max": info.max_value, "emin": info.is_min_exclusive, "emax": info.is_max_exclusive,
+                    "default_valid": s.IsValid()}
+        # copy_category
+        try:
+            db.AddCategory("c12a", "length", default_unit="m", **kw)
+            db.AddCategory("c12b", "length", default_unit="m", min_value=V["lo2"], default_value=V["lo2"])
+        except (ValueError, AssertionError, RuntimeError):
+            return {"skip": True}
+        o = _mk_obj(cfg["cls"], xs, cfg["u"], "c12a")
+        first = o.IsValid()
+        c = o.CreateCopy(unit=cfg["u"], category="c12b")
+        c2 = o.CreateCopy(unit="m", category="c12b")
+        return {"first": first, "copy_valid": c.IsValid(), "copy2_valid": c2.IsValid(), "copy_cat": c.GetCategory()}
+
+
 def run(cfg, V):
     from barril.units import Array, FixedArray, FractionScalar, Scalar
 
+    if "k" in cfg:
+        return run_history(cfg, V)
     sdb = _sdb()
     _CTR[0] += 1
     cat = "c%d" % _CTR[0]
@@ -175,6 +251,8 @@ def props(cfg, T, obs):
     if isinstance(obs, Raised):
         return [("validation raises only QuantityValidationError", False)]
     C = _cmpz(fp)
+    if "k" in cfg:
+        return props_history(cfg, T, obs, C)
     if fp:
         lo, hi, d = z3.FPVal(0.0, core.F64), z3.FPVal(10.0, core.F64), z3.FPVal(5.0, core.F64)
     else:
@@ -244,5 +322,49 @@ def props(cfg, T, obs):
     return P
 
 
+def props_history(cfg, T, obs, C):
+    from .common import get_db
+
+    if obs.get("skip"):
+        return []
+    kind, emin, emax = cfg["lim"]
+    lo, hi = T["lo"], T["hi"]
+    has_min, has_max = kind in ("min", "both"), kind in ("max", "both")
+    opmin, opmax = (">" if emin else ">="), ("<" if emax else "<=")
+    db = get_db("default")
+
+    def within(v, lo=lo, hi=hi, has_min=has_min, has_max=has_max, opmin=opmin, opmax=opmax):
+        cs = ([C[opmin](v, lo)] if has_min else []) + ([C[opmax](v, hi)] if has_max else [])
+        return z3.And(*cs) if cs else z3.BoolVal(True)
+
+    xs = [T["x%d" % i] for i in range(cfg["n"])]
+    if cfg["cls"] == "Scalar" or cfg["cls"] == "FractionScalar":
+        xs = xs[:1]
+    conv = [oracle_convert(db, cfg["qt"], cfg["u"], "m", x) for x in xs]
+    k = cfg["k"]
+    if k == "redefine":
+        want = z3.And(*[within(v) for v in conv])
+        return [("objects built from the unit alone validate against the REDEFINED category (no stale limits from an earlier use)", z3.BoolVal(bool(obs["valid_unit_only"])) == want),
+                ("objects naming the category validate against the redefined category", z3.BoolVal(bool(obs["valid_explicit"])) == want),
+                ("the unit alone still resolves to the category", obs["cat"] == "length")]
+    if k == "from_category":
+        if not obs["copied"]:
+            return []  # a refused copy is always safe for this property
+        dv = term(obs["default"])
+        cs = []
+        if obs["min"] is not None:
+            cs.append(dv > term(obs["min"]) if obs["emin"] else dv >= term(obs["min"]))
+        if obs["max"] is not None:
+            cs.append(dv < term(obs["max"]) if obs["emax"] else dv <= term(obs["max"]))
+        return [("a category copied from another one (from_category) never gets a default value outside its own limits", z3.And(*cs) if cs else True),
+                ("Scalar(copied category) is valid", bool(obs["default_valid"]))]
+    want2 = z3.And(*[v >= T["lo2"] for v in conv])
+    return [("a copy moved to another category validates against THAT category's limits (no verdict inherited from the source)",
+             z3.And(z3.BoolVal(bool(obs["copy_valid"])) == want2, z3.BoolVal(bool(obs["copy2_valid"])) == want2, z3.BoolVal(obs["copy_cat"] == "c12b"))),
+            ("the source verdict follows the source category", z3.BoolVal(bool(obs["first"])) == z3.And(*[within(v) for v in conv]))]
+
+
 def finding_key(cfg, name):
+    if "k" in cfg:
+        return "history %s %s %s[%s] %s :: %s" % (cfg["k"], cfg["cls"], cfg["qt"], cfg["u"], cfg["lim"], name)
     return "%s %s[%s<-%s] %s n=%d %s%s :: %s" % (cfg["cls"], cfg["qt"], cfg["du"], cfg["u"], cfg["lim"], cfg["n"], cfg["dflt"], " fp" if cfg["fp"] else "", name)
